@@ -11,6 +11,9 @@ open Lcapy.Cache Lcapy.Gen.Caches
 /-- public `add` calls `_invalidate()` -/
 theorem add_invalidates : config.addInvalidates = true := by decide
 
+/-- ... unconditionally, hence also after a multi-line `add` (for which `_add` returns None) -/
+theorem add_multi_invalidates : config.addMultiInvalidates = true := by decide
+
 /-- public `remove` calls `_invalidate()` -/
 theorem remove_invalidates : config.removeInvalidates = true := by decide
 
